@@ -1,0 +1,16 @@
+//go:build verif
+
+package virtual
+
+// VerifLockProbeIsFree reports whether the lock of the handle pool
+// that backs this allocator can currently be acquired exclusively. The
+// lock is released again immediately. This hook is only used by
+// external verification tooling (property C14) and never decides
+// anything.
+func (hr *NFSStatefulHandleAllocator) VerifLockProbeIsFree() bool {
+	if !hr.pool.lock.TryLock() {
+		return false
+	}
+	hr.pool.lock.Unlock()
+	return true
+}
